@@ -370,9 +370,21 @@ func (t *Term) ref() string {
 	}
 	return fmt.Sprintf("t%d", t.id)
 }
+// UF builds an application of an uninterpreted function (declared on first use by the solver layer).
+func UF(name string, res Sort, args ...*Term) *Term {
+	return mk("uf", res, 0, name, [2]int{}, args...)
+}
+
 func (t *Term) body() string {
 	var sb strings.Builder
 	switch t.op {
+	case "uf":
+		sb.WriteString("(|" + t.name + "|")
+		for _, a := range t.args {
+			sb.WriteByte(' ')
+			sb.WriteString(a.ref())
+		}
+		sb.WriteByte(')')
 	case "extract":
 		fmt.Fprintf(&sb, "((_ extract %d %d) %s)", t.extra[0], t.extra[1], t.args[0].ref())
 	case "zero_extend", "sign_extend":
